@@ -110,4 +110,7 @@ def run(tier):
                       'per model: pretty, recompile, from_model equality, behaviour on texts, fixpoint, railroads')
     ck.assumptions += ['from_model equality is modulo Option wrappers, one-element sequences/choices and groups around a single element',
                        'pretty-print fixpoint and railroad completion are implementation-level equalities checked directly (no spec oracle)']
+    # history independence over a pool of public-API calls: every response must be the one the call gets alone in a fresh interpreter
+    from .. import historypool as _hp
+    _hp.check_pool(ck, _hp.pool_c13(), 'pretty-printed parameters of equal value and different type', spec='C13 (the pretty-printed text is a function of the model)', orders=2 if tier == 'quick' else 6)
     return ck.finish()
